@@ -180,6 +180,14 @@ func c01Gen(g *core.Gen, emit func(*p2Case)) {
 		ncfg := scen.P2Config{Sizes: []int{11, 6}, Slice: 4, Blocks: 3, Class: "uniq", Names: nm}
 		genP2Deviations(g, ncfg, false, 1, mk(ncfg, 1))
 	}
+	// protected files, in a sub-directory, that carry the names of the set's own recovery files (an older copy of the set
+	// kept below it): what is protected and what is a recovery file is decided by where a file lies, not by its base name
+	{
+		vcfg := scen.P2Config{Sizes: []int{13, 8, 6}, Slice: 4, Blocks: 3, Class: "uniq", Names: []string{"old/s.vol00+01.par2", "f 1", "old/s.vol01+02.par2"}}
+		genP2Deviations(g, vcfg, false, 2, mk(vcfg, 1))
+		vcfg2 := scen.P2Config{Sizes: []int{9, 5}, Slice: 4, Blocks: 3, Class: "uniq", Names: []string{"old/s.par2", "bak/old/s.vol00+01.par2"}}
+		genP2Deviations(g, vcfg2, false, 1, mk(vcfg2, 1))
+	}
 	dup := scen.P2Config{Sizes: []int{9, 9}, Slice: 4, Blocks: 3, Class: "uniq", DupFile: true}
 	genP2Deviations(g, dup, true, 1, mk(dup, 1))
 	coll := scen.P2Config{Sizes: []int{27, 20}, Slice: 8, Blocks: 3, Class: "crccollide"}
